@@ -5,6 +5,7 @@ import (
 	"math/rand"
 	"sort"
 	"strings"
+	"sync"
 	"time"
 
 	"github.com/blevesearch/bleve/v2"
@@ -118,6 +119,11 @@ type fragRecord struct {
 	Value []int   `json:"value"`
 	Frag  []int   `json:"frag"`
 	Locs  [][]int `json:"locs"`
+	// the stored values of the field, one per array element (a plain field: one),
+	// and the hit's term locations per element; the judge accepts a fragment
+	// that is a piece of ONE element marked at THAT element's locations
+	Values [][]int   `json:"values"`
+	ALocs  [][][]int `json:"alocs"`
 	// not judged, for reports
 	Field string `json:"field"`
 	Style string `json:"style"`
@@ -169,7 +175,7 @@ func highlightRun(indexType string, docs []input, styles []hlStyle, seed int64, 
 		return nil, err
 	}
 	defer idx.Close()
-	values := map[string][]byte{}
+	values := map[string][][]byte{}
 	guard := func(what string, f func()) (msg string) {
 		defer func() {
 			if r := recover(); r != nil {
@@ -198,7 +204,14 @@ func highlightRun(indexType string, docs []input, styles []hlStyle, seed int64, 
 		for k := i; k < j; k++ {
 			id := fmt.Sprintf("d%05d", k)
 			v := docs[k].Bytes
-			values[id] = v
+			// every fourth document holds an ARRAY of short values in each field (its own
+			// value and those of its two predecessors): fragments of one element must be
+			// marked with the locations of that element only
+			elems := [][]byte{v}
+			if k%4 == 3 && len(v) <= 40 && len(docs[k-1].Bytes) <= 40 && len(docs[k-2].Bytes) <= 40 {
+				elems = [][]byte{docs[k-1].Bytes, v, docs[k-2].Bytes}
+			}
+			values[id] = elems
 			data := map[string]interface{}{}
 			for _, f := range fields {
 				// indexing analyses in worker goroutines where a panic cannot be recovered: analyse
@@ -210,6 +223,23 @@ func highlightRun(indexType string, docs []input, styles []hlStyle, seed int64, 
 						seenAnalyze[key] = true
 						res.failures = append(res.failures, &hlFailure{Kind: "panic", Field: f.Name, Style: "index", Query: "analyze", Msg: msg, Docs: []string{docs[k].Class}})
 					}
+					continue
+				}
+				if len(elems) > 1 {
+					bad := false
+					for _, e := range elems {
+						if guard("Analyze", func() { a.Analyze(append([]byte{}, e...)) }) != "" {
+							bad = true
+						}
+					}
+					if bad {
+						continue
+					}
+					arr := make([]interface{}, len(elems))
+					for i, e := range elems {
+						arr[i] = string(e)
+					}
+					data[f.Name] = arr
 					continue
 				}
 				data[f.Name] = string(v)
@@ -237,6 +267,7 @@ func highlightRun(indexType string, docs []input, styles []hlStyle, seed int64, 
 		name string
 		q    query.Query
 	}
+	var jobs []hlJob
 	for _, f := range fields {
 		// terms of the field, from the index dictionary
 		var terms []string
@@ -288,77 +319,131 @@ func highlightRun(indexType string, docs []input, styles []hlStyle, seed int64, 
 		for _, qq := range qs {
 			// every query with a few styles (all styles are used across the run)
 			for k := 0; k < 3; k++ {
-				if res.searches >= maxSearches || time.Now().After(deadline) {
-					return res, nil
+				if len(jobs) >= maxSearches {
+					break
 				}
-				st := styles[rng.Intn(len(styles))]
-				req := bleve.NewSearchRequestOptions(qq.q, 150, 0, false)
-				req.Highlight = bleve.NewHighlightWithStyle(st.Name)
-				req.Highlight.AddField(f.Name)
-				req.IncludeLocations = true
-				var sr *bleve.SearchResult
-				done := make(chan string, 1)
-				go func() {
-					done <- guard("Search", func() {
-						var err error
-						sr, err = idx.Search(req)
-						if err != nil {
-							panic("error: " + err.Error())
-						}
-					})
-				}()
-				var msg string
-				select {
-				case msg = <-done:
-				case <-time.After(60 * time.Second):
-					res.failures = append(res.failures, &hlFailure{Kind: "hang", Field: f.Name, Style: st.Name, Query: qq.name, Msg: "search with highlighting did not return in 60s"})
-					return res, nil
-				}
-				res.searches++
-				if msg != "" {
-					kind := "panic"
-					if strings.HasPrefix(msg, "error: ") {
-						kind = "error"
-					}
-					res.failures = append(res.failures, &hlFailure{Kind: kind, Field: f.Name, Style: st.Name, Query: qq.name, Msg: msg})
-					continue
-				}
-				for _, hit := range sr.Hits {
-					res.hits++
-					frs := hit.Fragments[f.Name]
-					res.fragments += len(frs)
-					if !f.Judged {
-						continue
-					}
-					var locs [][]int
-					for _, ls := range hit.Locations[f.Name] {
-						for _, l := range ls {
-							locs = append(locs, []int{int(l.Start), int(l.End)})
-						}
-					}
-					sort.Slice(locs, func(i, j int) bool {
-						if locs[i][0] != locs[j][0] {
-							return locs[i][0] < locs[j][0]
-						}
-						return locs[i][1] < locs[j][1]
-					})
-					for _, fr := range frs {
-						rec := &fragRecord{Fmt: st.Fmt, Value: bytesToInts(values[hit.ID]), Frag: bytesToInts([]byte(fr)), Locs: locs,
-							Field: f.Name, Style: st.Name, Doc: hit.ID, Query: qq.name}
-						if rec.Locs == nil {
-							rec.Locs = [][]int{}
-						}
-						key := fmt.Sprint(rec.Fmt, rec.Value, rec.Frag, rec.Locs)
-						if !seenRec[key] {
-							seenRec[key] = true
-							res.records = append(res.records, rec)
-						}
-					}
-				}
+				jobs = append(jobs, hlJob{f, qq.name, qq.q, styles[rng.Intn(len(styles))]})
 			}
 		}
 	}
+	// the searches run concurrently (highlighters and formatters are shared, cached
+	// objects: a fragment must not contain text of another search's document)
+	var mu sync.Mutex
+	var wg sync.WaitGroup
+	jobCh := make(chan hlJob, len(jobs))
+	for _, j := range jobs {
+		jobCh <- j
+	}
+	close(jobCh)
+	hung := false
+	for w := 0; w < 6; w++ {
+		wg.Add(1)
+		go func() {
+			defer wg.Done()
+			for job := range jobCh {
+				f, qq, st := job.f, job, job.st
+				mu.Lock()
+				stop := hung || time.Now().After(deadline)
+				mu.Unlock()
+				if stop {
+					return
+				}
+				{
+					req := bleve.NewSearchRequestOptions(qq.q, 150, 0, false)
+					req.Highlight = bleve.NewHighlightWithStyle(st.Name)
+					req.Highlight.AddField(f.Name)
+					req.IncludeLocations = true
+					var sr *bleve.SearchResult
+					done := make(chan string, 1)
+					go func() {
+						done <- guard("Search", func() {
+							var err error
+							sr, err = idx.Search(req)
+							if err != nil {
+								panic("error: " + err.Error())
+							}
+						})
+					}()
+					var msg string
+					select {
+					case msg = <-done:
+					case <-time.After(60 * time.Second):
+						mu.Lock()
+						res.failures = append(res.failures, &hlFailure{Kind: "hang", Field: f.Name, Style: st.Name, Query: qq.name, Msg: "search with highlighting did not return in 60s"})
+						hung = true
+						mu.Unlock()
+						return
+					}
+					mu.Lock()
+					res.searches++
+					if msg != "" {
+						kind := "panic"
+						if strings.HasPrefix(msg, "error: ") {
+							kind = "error"
+						}
+						res.failures = append(res.failures, &hlFailure{Kind: kind, Field: f.Name, Style: st.Name, Query: qq.name, Msg: msg})
+						mu.Unlock()
+						continue
+					}
+					for _, hit := range sr.Hits {
+						res.hits++
+						frs := hit.Fragments[f.Name]
+						res.fragments += len(frs)
+						if !f.Judged {
+							continue
+						}
+						elems := values[hit.ID]
+						alocs := make([][][]int, len(elems))
+						for i := range alocs {
+							alocs[i] = [][]int{}
+						}
+						for _, ls := range hit.Locations[f.Name] {
+							for _, l := range ls {
+								e := 0
+								if len(l.ArrayPositions) > 0 {
+									e = int(l.ArrayPositions[0])
+								}
+								if e < len(alocs) {
+									alocs[e] = append(alocs[e], []int{int(l.Start), int(l.End)})
+								}
+							}
+						}
+						for _, locs := range alocs {
+							sort.Slice(locs, func(i, j int) bool {
+								if locs[i][0] != locs[j][0] {
+									return locs[i][0] < locs[j][0]
+								}
+								return locs[i][1] < locs[j][1]
+							})
+						}
+						vals := make([][]int, len(elems))
+						for i, e := range elems {
+							vals[i] = bytesToInts(e)
+						}
+						for _, fr := range frs {
+							rec := &fragRecord{Fmt: st.Fmt, Value: vals[0], Frag: bytesToInts([]byte(fr)), Locs: alocs[0], Values: vals, ALocs: alocs,
+								Field: f.Name, Style: st.Name, Doc: hit.ID, Query: qq.name}
+							key := fmt.Sprint(rec.Fmt, rec.Values, rec.Frag, rec.ALocs)
+							if !seenRec[key] {
+								seenRec[key] = true
+								res.records = append(res.records, rec)
+							}
+						}
+					}
+					mu.Unlock()
+				}
+			}
+		}()
+	}
+	wg.Wait()
 	return res, nil
+}
+
+type hlJob struct {
+	f    hlField
+	name string
+	q    query.Query
+	st   hlStyle
 }
 
 // directHighlight calls the highlighters with arbitrary in-range term
